@@ -80,6 +80,16 @@ structure Cfg where
   pkce : Bool                       -- SetOAuthPkce
   deriving Repr
 
+/-- `EnableSticky` called with these TTLs (seconds) in turn: the first call creates the registry
+(a non-positive TTL means the 300 s default), later calls only replace a positive TTL. -/
+def stickyDefaultTTLSec : Nat := 300
+
+def stickyTTL : List Int → Option Nat
+  | [] => none
+  | first :: rest =>
+    some (rest.foldl (fun ttl d => if d > 0 then d.toNat else ttl)
+      (if first > 0 then first.toNat else stickyDefaultTTLSec))
+
 /-! ## header names (lower case) -/
 
 def hRequestID : String := "x-request-id"
